@@ -240,6 +240,11 @@ def _literal_like(v) -> bool:
         return _literal_like(v.left) and _literal_like(v.right)
     if isinstance(v, ast.JoinedStr):
         return False
+    if isinstance(v, ast.Name) and v.id in ("dict", "list", "int", "set", "str", "float", "tuple", "bool", "bytes", "frozenset"):
+        return True  # a builtin type used as a value (a factory in a table row)
+    if isinstance(v, ast.Lambda) and not (v.args.args or v.args.vararg or v.args.kwarg or v.args.kwonlyargs or v.args.posonlyargs) and _literal_like(v.body) \
+            and not isinstance(v.body, (ast.List, ast.Dict, ast.Set)):
+        return True  # `lambda: <immutable literal>`
     return False
 
 
@@ -1729,6 +1734,8 @@ def normalize(modules) -> Report:
     n2.thread_constant_flags(modules, known, rep)
     n2.thread_none_sentinels(modules, known, rep)
     n2.resolve_conditional_joins(modules, known, rep)
+    n2.unroll_constant_loops(modules, known, rep)
+    n2.constant_attr_access(modules, rep)
     n2.unroll_small_lists(modules, known, rep)
     n2.fold_constant_tests(modules, known, rep)
     seen = set()
